@@ -5,7 +5,7 @@ Behaviour replay, spec -> code:
   1. TLC model-checks Memo.tla (quick: every history of <= 3 calls over 21 core bases and of <= 2 calls over all
      memo-relevant bases; thorough: <= 3 calls over all memo-relevant bases, <= 4 calls over the core bases and every
      2-call history of the full alphabet in every layout) and refutes the defective design variants
-     (MemoMC_bug_*.cfg: five in quick, all eleven in thorough): the refinement Memo => MemoFree is not vacuous.
+     (MemoMC_bug_*.cfg: seven in quick, all thirteen in thorough): the refinement Memo => MemoFree is not vacuous.
   2. Histories are taken from TLC:
        pair   - the state graph of all 2-call histories (-dump dot,actionlabels) gives the (writer, reader, table)
                 triples of calls that share a memo table with overlapping keys (res.pairs of the second state);
@@ -30,7 +30,7 @@ BUG_CFGS = {'projkey': 'ResultIndependentOfHistory', 'dbetakey': 'ResultIndepend
             'raw45': 'LayoutIndependent', 'rawxx': 'LayoutIndependent', 'godaddr': 'ResultIndependentOfHistory',
             'demes': 'ResultIndependentOfHistory', 'perturb': 'ArgumentsUnchanged',
             'hashorder': 'ResultIndependentOfHashSeed', 'sfslist': 'ArgumentsUnchanged',
-            'kernelstate': 'ResultIndependentOfHistory'}
+            'kernelstate': 'ResultIndependentOfHistory', 'latecopy': 'ResultIsFresh', 'vector': 'ArgumentsUnchanged'}
 TABLES = ['proj', 'dbeta', 'part', 'precalc', 'multinom', 'bb', 'godambe']
 
 
@@ -98,7 +98,7 @@ def simulate(cfg, num, seed):
     return r, hs[:num]
 
 
-QUICK_BUGS = ['dbetakey', 'godaddr', 'raw45', 'kernelstate', 'hashorder']     # quick: one per mechanism; thorough: all
+QUICK_BUGS = ['dbetakey', 'godaddr', 'raw45', 'kernelstate', 'hashorder', 'latecopy', 'vector']     # quick: one per mechanism; thorough: all
 
 
 def refute_bug_designs(workers=2, names=None):
@@ -180,16 +180,17 @@ def _mutations(rec):
     """(expected clause, mutated record) for every field of the record the trace spec must be sensitive to."""
     out = []
 
-    def mut(clause, f):
+    def mut(clause, f, tag=''):
         m = copy.deepcopy(rec)
         if f(m) is not False:
-            out.append((clause, m))
+            out.append((clause, m, tag))
     mut('ResultIndependentOfHistory', lambda m: m['out'].__setitem__('dig', 'x' + m['out']['dig'][1:]))
     mut('ResultIndependentOfHistory', lambda m: m['out'].__setitem__('vals', m['out']['vals'][:-1] + ['12345/7']) if m['out']['vals'] else False)
     mut('ResultIndependentOfHashSeed', lambda m: m['fresh'][-1].__setitem__('dig', 'y' + m['fresh'][-1]['dig'][1:]) if len(m['fresh']) > 1 else False)
     mut('ArgumentsUnchanged', lambda m: m['args'][0].__setitem__('after', 'z' + m['args'][0]['after'][1:]) if m['args'] else False)
     if rec['site'].startswith('Integration.'):
         mut('ResultIsFresh', lambda m: m['args'][0].__setitem__('shares', True))
+        mut('ResultIsFresh', lambda m: m['args'][0].__setitem__('afterw', 'v' + m['args'][0]['afterw'][1:]), tag='follow-up')
     if (rec['lay'], rec['xl']) != ('C', 'C'):
         def lay(m):
             m['contig']['dig'] = 'w' + m['contig']['dig'][1:]
@@ -225,8 +226,8 @@ def binding_demo(groups, verdicts, limit=120):
         if len(g) > 8 or any(r['id'] in verdicts for r in g) or any(r.get('crashed') for r in g):
             continue
         for j, rec in enumerate(g):
-            for clause, m in _mutations(rec):
-                key = (clause, rec['site'])
+            for clause, m, tag in _mutations(rec):
+                key = (clause, rec['site'], tag)
                 if per.get(key, 0) >= 1 or per.get(clause, 0) >= 14:
                     continue
                 per[key] = per.get(key, 0) + 1
@@ -306,7 +307,10 @@ def what_of(rec, clause, hist):
     if clause in ('ArgumentsUnchanged',):
         extra = ' (modified: %s)' % ', '.join(a['name'] for a in rec['args'] if a['before'] != a['after'])
     elif clause == 'ResultIsFresh':
-        extra = ' (result shares memory with: %s)' % ', '.join(a['name'] for a in rec['args'] if a['shares'])
+        extra = ' (result shares memory with: %s; %s; rewritten by in-place work on the result: %s)' % (
+            ', '.join(a['name'] for a in rec['args'] if a['shares']) or 'nothing',
+            'the result IS the argument object ' + ', '.join(a['name'] for a in rec['args'] if a.get('same_object')) if any(a.get('same_object') for a in rec['args']) else 'a different object',
+            ', '.join(a['name'] for a in rec['args'] if a.get('afterw') != a['after']) or 'nothing')
     elif clause == 'LayoutIndependent':
         extra = ' (density layout %s, grid layout %s: result %s vs contiguous %s%s)' % (rec['lay'], rec['xl'], o['dig'][:8], rec['contig']['dig'][:8],
                                                                                          '; ' + o['exc'] if o.get('exc') else '')
